@@ -568,6 +568,17 @@ int h_cond_signal(pthread_cond_t *c) {
     pthread_mutex_unlock(&wmu);
     return pthread_cond_signal(c);
 }
+/* pthread_exit of a harness-run thread: the scheduler learns that it is gone */
+void h_thread_exit(void *v) {
+    struct hthread *t = self;
+    if (t) {
+        pthread_mutex_lock(&wmu);
+        t->state = W_DONE;
+        pthread_cond_broadcast(&wcv);
+        pthread_mutex_unlock(&wmu);
+    }
+    pthread_exit(v);
+}
 /* let a sleeping writer run until it sleeps again; 0 = it is asleep and nobody signalled it */
 int h_writer_run(void *h) {
     struct hthread *t = h;
